@@ -148,6 +148,7 @@ MUTANTS = {
         ("NC-bigger-read-buffer", "tatsu/packetz/queue.py", 'with self.path.open("rb", buffering=1024 * 256) as q:', 'with self.path.open("rb", buffering=1024 * 1024) as q:', "quiet"),
     ],
     "C18": [
+        ("payloads-walked-twice", "tatsu/parproc/parproc.py", "    tasks = [\n        Task(", "    total = len(list(payloads))  # for a progress message\n    tasks = [\n        Task(", "caught"),
         ("no-pop", "tatsu/parproc/pmap.py", "_task = futures.pop(future)", "_task = futures.get(future)", "caught"),
         ("pop-never-refill", "tatsu/parproc/pmap.py", "for task in islice(taskiter, 1):", "for task in islice(taskiter, 0):", "caught"),
         ("window-minus-one", "tatsu/parproc/pmap.py", "n = 1 + (max_workers or 8)", "n = (max_workers or 8) - 1", "caught"),
